@@ -16,6 +16,7 @@ RULE = (
     "later snaps - every 8th/16th case also an array of 4097-20000 values / rows in arbitrary order. Non-trivial sub-case = a probe within 2 ulps of a mid-point or outside "
     "the grid range; distinct by (grid hash, value)."
     ' Also write-protected, zero-stride and empty values, digitize_data on Fortran-ordered / transposed / strided / write-protected / zero-stride data, consecutive-integer grids around zero, snaps under errstate(all=raise), arrays of k*65536+1 values (every 100th case) and four threads snapping at once (every 50th).'
+    ' digitize_data is also run on families of nearly equal grids (same length, far from the origin, shifted by a fraction of a step).'
 )
 ASSUMPTIONS = [
     "distance is judged as computed in float64 (|g - v| rounded); an exactly-nearest element is always accepted",
